@@ -41,7 +41,27 @@ def match_f702(f: dict) -> bool:
             and any(h['kind'] == 'daemon' and h.get('temper') == 'ignores' for h in f['case']['scenario']['handlers']))
 
 
+def gen_burst(r):
+    """Retrying handlers and foreign non-essential writes that race the operator's own patches: several stale watch events
+    in a row between a PATCH of the operator and its echo (the worker must keep waiting for its own version)."""
+    hs = [{'kind': r.choice(['create', 'update']), 'id': 'h0', 'script': r.choice([['temp:1', 'ok'], ['temp:1', 'temp:1', 'ok'], ['temp:2', 'ok']]),
+           'kwargs': {'backoff': 1}}]
+    if r.random() < 0.5:
+        hs.append({'kind': 'update', 'id': 'u1', 'script': ['ok'], 'kwargs': {'backoff': 1}})
+    if r.random() < 0.5:
+        hs.append({'kind': 'create', 'id': 'c1', 'script': r.choice([['ok'], ['temp:1', 'ok']]), 'kwargs': {'backoff': 1}})
+    acts = [{'a': 'create', 'obj': 'obj1', 'spec': {'a': 1}}]
+    for _ in range(r.choice([1, 2, 3])):
+        acts.append({'a': 'foreign_burst', 'obj': 'obj1', 'nth': r.choice([1, 1, 2]), 'count': r.choice([2, 2, 3]), 'patch': {'a': r.randrange(500, 600)}})
+        acts.append({'a': 'run', 'dt': r.choice([0.5, 1, 3])})
+    cfg = cs.gen_cfg(r)
+    cfg['latency'] = r.choice([0.125, 0.125, 0])
+    return {'cfg': cfg, 'handlers': hs, 'actions': acts}
+
+
 def gen(r, i):
+    if i % 6 == 5:
+        return gen_burst(r)
     return cs.gen_scenario(r, n_actions=14, daemons=(i % 4 == 0))
 
 
